@@ -138,6 +138,10 @@ Next ==
     /\ l' = l + 1
     /\ LET ev == Tr[l] IN
        IF ev.e = "Open" THEN DoOpen(ev)
+       ELSE IF ev.e = "Crashed" THEN
+            /\ divs' = Append(divs, Div("crash (signal, abort or uncaught exception) - no specification action allows it",
+                                         IF mode = "run" THEN Show(sess) ELSE <<>>, ev))
+            /\ mode' = "skip" /\ UNCHANGED <<cov, sess, cur, stats>>
        ELSE IF mode = "await" THEN DoAwait(ev)
        ELSE IF mode = "run" THEN DoRun(ev)
        ELSE /\ stats' = Bump("skipped") /\ UNCHANGED <<divs, cov, sess, cur, mode>>
